@@ -63,7 +63,7 @@ def collect_cases(ctx, vh):
         add(*_tlc_gen(ctx, "gen-mesh3", "ObjMeshGen", "ObjMeshGen3.cfg"), "meshgen3")
     # (2) OBJ texts: every arrangement up to a depth, deeper random walks
     if tier == "quick":
-        add(*_tlc_gen(ctx, "gen-text", "ObjTextGen", "ObjTextGen4.cfg"), "textgen")
+        add(*_tlc_gen(ctx, "gen-text", "ObjTextGen", "ObjTextGen5.cfg"), "textgen")
         add(*_tlc_gen(ctx, "gen-textsim", "ObjTextGen", "ObjTextGenSim.cfg", simulate="num=60", depth=9), "textsim")
     else:
         add(*_tlc_gen(ctx, "gen-text", "ObjTextGen", "ObjTextGen6.cfg", timeout=1500), "textgen")
